@@ -75,6 +75,8 @@ pub fn run(out: &mut Out, thorough: bool) {
             } else {
                 out.push(&format!("{}/trusted/generate_proof", tag), "generate_proof", inp.clone(), "panic:generate_proof".into(), &["expect-accept"]);
             }
+            // a trusted commitment is supplied but the proof carries no same-secrets proof for it: must be refused
+            out.check(&format!("{}/trusted/missing-trusted-proof", tag), "verify_proof", vec!["C_trusted and its key given, ZKPoK generated without them".into()], false, &[], || zk.verify_proof(cc, Some(cct), pk, &bases, Some(&tp), &u));
             // ---- mismatches: the issuer must not sign ------------------------------------------------------------------
             let c_other = Commitment::<CL03<CS>>::commit_with_pk(&m_other, pk, &bases, Some(&u));
             out.check(&format!("{}/mismatch/other-commitment/verify_proof", tag), "verify_proof", inp.clone(), false, &[], || zk.verify_proof(c_other.cl03Commitment(), None, pk, &bases, None, &u));
